@@ -522,7 +522,7 @@ func main() {
 	f := gallina.ParseFlags()
 	meta := gallina.NewMeta("C10", f.Seed, f.Tier)
 	meta.Rule = "corpus + seeded sequences per encoding (XOR, XOR2): timestamps increasing with delta-of-delta drawn from the bucket edges (13/14/17/20/64 bit, +-1), huge, arbitrary int64 and non-monotonic; values constant/counter/gauge/random bits/chosen xor windows/stale-NaN mixes/specials; start timestamps none/constant/late/jitter/edges/arbitrary/resets; appender re-obtained at random cuts (same object or from bytes); Next/Seek script. non-trivial = at least 3 samples and at least one non-zero delta-of-delta or value change; distinct by (encoding, samples, cuts, script)"
-	cf := &gallina.CaseFile{Dir: f.Out, Type: "case", PerShard: f.Count(31, 160),
+	cf := &gallina.CaseFile{Dir: f.Out, Type: "case", PerShard: f.Count(33, 160),
 		Preamble: "From Coq Require Import List ZArith Uint63.\nFrom Verif Require Import lib.Int64 lib.Bits model.Xor corr.CorrC10.\nImport ListNotations.\nOpen Scope uint63_scope.\n",
 		Footer:   gallina.StdFooter}
 	id := 0
@@ -674,6 +674,26 @@ func main() {
 		for _, e := range []int64{1 << 13, 1<<13 + 1, -(1<<13 - 1), -(1 << 13), 1<<12 - 1, 1 << 12, -(1 << 12), -(1 << 12) - 1, 1 << 16, 1<<16 + 1, -(1<<16 - 1), -(1 << 16), 1 << 19, 1<<19 + 1, 1<<19 - 1, -(1<<19 - 1), -(1 << 19), -(1 << 19) - 1} {
 			d0 := int64(1 << 21)
 			emit(enc, []seg{{ss: mk([]int64{0, d0, 2*d0 + e, 3*d0 + 2*e}, []uint64{1, 1, 2, 2}, []int64{0, 0, 0, 0})}}, []action{{seek: true, t: d0 + 1}}, desc{Corpus: fmt.Sprintf("dod-edge-%d", e), TsMode: "corpus", ValMode: "corpus", StMode: "none"})
+		}
+		// start timestamps: constant for more than 127 samples, then changing (the header's
+		// firstSTChangeOn has only 7 bits and is forced at sample 127); also a change exactly
+		// at 126/127/128 and a reload from bytes right after the forced position
+		for _, k := range []int{126, 127, 128, 131} {
+			n0 := 140
+			ts := make([]int64, n0)
+			vs := make([]uint64, n0)
+			sts := make([]int64, n0)
+			for i := range ts {
+				ts[i] = int64(i) * 1000
+				vs[i] = f64(float64(i / 5))
+				sts[i] = -7
+				if i >= k {
+					sts[i] = ts[i-1] + int64(i%3)
+				}
+			}
+			all := mk(ts, vs, sts)
+			emit(enc, []seg{{ss: all}}, []action{{seek: true, t: 126500}, {}, {}}, desc{Corpus: fmt.Sprintf("st-change-at-%d", k), TsMode: "corpus", ValMode: "corpus", StMode: "constant-then-change"})
+			emit(enc, []seg{{ss: all[:128]}, {fromBytes: enc == chunkenc.EncXOR2, ss: all[128:]}}, nil, desc{Corpus: fmt.Sprintf("st-change-at-%d-reopen-128", k), TsMode: "corpus", ValMode: "corpus", StMode: "constant-then-change"})
 		}
 		// extreme timestamps: deltas that wrap int64
 		emit(enc, []seg{{ss: mk([]int64{math.MinInt64, math.MaxInt64, math.MinInt64, 0, math.MaxInt64}, []uint64{0, math.MaxUint64, staleNaN, staleNaN, 1}, nil)}}, nil, desc{Corpus: "int64-extremes", TsMode: "corpus", ValMode: "corpus", StMode: "none"})
